@@ -13,7 +13,7 @@ E1 = "Trusted: " + TB + "."
 CLAIMED = {
     "C01": dict(
         technique="bounded symbolic execution (CrossHair+z3) of Grammar.fuzz and of the repair/crossover/mutation pipeline with every random draw symbolic; independent derivation checker as oracle",
-        text="All seeds within the draw bound: every execution path of Grammar.fuzz on 6 grammars (draws <= 8, budgets {0,2,5,12}) and of the pipeline fuzz -> evaluate -> repetition/equality repair -> repair | mutation on 4 specs is discharged by z3; every produced tree is a derivation (independent checker), rooted at the start symbol, helper-free, with consistent bookkeeping. Bounded; the induction from per-step validity to whole search histories is not mechanised.",
+        text="(a) Unit steps: for the real Alternative/Concatenation/Repetition/Star/Plus/Option/NonTerminalNode.fuzz with stub sub-nodes, symbolic bounds, budgets, override arguments and draws, every path expands exactly the children the node's grammar meaning allows and tags iterations consistently. (b) All seeds within the draw bound: every execution path of Grammar.fuzz on 6 grammars (draws <= 8, budgets {0,2,5,12}); (c) the pipeline fuzz -> evaluate -> repetition/equality repair -> repair | crossover | mutation on 4 specs: every produced tree is a derivation (independent checker), rooted at the start symbol, helper-free, with consistent bookkeeping. Bounded; the induction from per-step validity to whole search histories is not mechanised.",
         note=E1 + " Outside: regex terminals, generators (C16), non-default Gmutator settings, whole evolutionary runs.", ref="DESIGN.md section 3 C01"),
     "C02": dict(
         technique="AST->SMT (z3 Float64) threshold-soundness query on Evaluator.evaluate_individual + CrossHair execution of real constraints/Evaluator on symbolic trees (exception path)",
@@ -27,24 +27,24 @@ CLAIMED = {
         ref="DESIGN.md section 3 C03"),
     "C04": dict(
         technique="bounded symbolic execution of the real Earley parser (CrossHair+z3) on a symbolic word; independent derivation checker as oracle",
-        text="Every execution path of IterativeParser on ANY str word up to the length bound (all code points) over a fixed family of 7 literal-terminal grammars is discharged by z3: each yielded tree is a derivation (independent checker), serialises to the word, has the requested root and no helper symbols. Counterexamples are replayed natively before being reported. Bounded: nothing is claimed for longer words, other grammars or regex terminals.",
-        note=E1 + " Outside: regex terminals, words beyond the bound, grammars outside the family, bytes/bit inputs.", ref="DESIGN.md section 3 C04"),
+        text="Every execution path of IterativeParser on ANY str word up to the length bound (all code points) over 12 literal-terminal grammars is discharged by z3: each yielded tree is a derivation (independent checker), serialises to the word, has the requested root and no helper symbols. 6 grammars with regex terminals: the same for ALL words over a stated 2-4 letter alphabet up to length 3-4 (finite-alphabet conditions). Public API: Grammar.parse_forest after a symbolic earlier request (cache key), bytes words on a bytes grammar, and Fandango.parse's filter on repetition bounds. Counterexamples are replayed natively before being reported. Bounded: nothing is claimed for longer words or other grammars.",
+        note=E1 + " Outside: regex terminals on words outside the stated alphabets, words beyond the bound, grammars outside the family, bit-level inputs.", ref="DESIGN.md section 3 C04"),
     "C05": dict(
         technique="bounded symbolic execution of the real parser vs a reference recogniser (both directions) + Grammar.fuzz round trip with symbolic draws",
-        text="For 9 literal-terminal grammars (incl. empty-deriving repetition bodies) and ANY str word up to the bound: the real parser yields a tree iff the reference recogniser accepts. For 5 grammars and every draw sequence within the bound: the serialisation of the generated tree parses back to a tree with the same serialisation.",
-        note=E1 + " Outside: regex terminals (so empty-matching regexes are NOT decided), bytes/bit grammars, the constraint filter of --validate.", ref="DESIGN.md section 3 C05"),
+        text="For 12 literal-terminal grammars (incl. empty-deriving repetition bodies, the same nullable symbol twice, {0,m}) and ANY str word up to the bound: the real parser yields a tree iff the reference recogniser accepts; 6 regex-terminal grammars (incl. a regex that matches the empty string): the same for ALL words over a stated alphabet up to length 3-4. For 5 grammars and every draw sequence within the bound, plus regex terminals through a stubbed generator and a bytes grammar: the serialisation of the generated tree parses back to a tree with the same serialisation. One genuine incompleteness is carried as known finding C05-starrep.",
+        note=E1 + " Outside: regex terminals on words outside the stated alphabets, bit-level grammars, the constraint filter of --validate.", ref="DESIGN.md section 3 C05"),
     "C06": dict(
         technique="bounded symbolic execution of the real parser with the number of admitted Earley states counted against a bound derived from the compiled rule table",
-        text="For 11 grammars (nested repetitions, left/right recursion, optional/empty-deriving symbols under * and +) and ANY str word up to the bound, in forest mode and (for 4 grammars) prefix mode, the number of admitted states stays below 8*(#dotted rules)*(n+1)^2+64 on every path, i.e. the parse terminates; the twin shows the counter is live.",
-        note=E1 + " Outside: grammars that are themselves cyclic through nullable user recursion, regex terminals, prefix mode on left-recursive grammars (ends with RecursionError = raises).", ref="DESIGN.md section 3 C06"),
+        text="For 15 literal-terminal grammars (nested repetitions, left/right recursion, optional/empty-deriving symbols under *, +, {n,} and in sequences) and ANY str word up to the bound, in forest mode and (for 10 grammars) prefix mode, and for 6 regex-terminal grammars on ALL words over a stated alphabet up to length 3-4 in both modes: the number of admitted Earley states stays below 8*(#dotted rules)*(n+1)^2+64 on every path, i.e. the parse terminates; the twin shows the counter is live.",
+        note=E1 + " Outside: grammars that are themselves cyclic through nullable user recursion, regex terminals on words outside the stated alphabets, prefix mode on left-recursive grammars (ends with RecursionError = raises).", ref="DESIGN.md section 3 C06"),
     "C07": dict(
         technique="bounded symbolic execution of real constraint objects (eager and lazy) on symbolic trees; differential against a reference evaluator written from the documentation",
         text="29 constraint programs covering every selector and combinator named in the property, each read by the real reader; for EVERY tree of the bound (1-2 records over leaf alphabet {0,5,a}) check() equals the reference verdict, lazy equals eager, fitness < 1 when violated, and a one-constraint Evaluator yields the tree exactly when the constraint holds.",
         note=E1 + " Constraint programs are a fixed list (not solver variables). Outside: other grammars, deeper trees, '->'.", ref="DESIGN.md section 3 C07"),
     "C09": dict(
         technique="bounded symbolic execution of TreeValue / DerivationTree.value over symbolic leaf sequences, contents, nesting and request order; oracle from the property text",
-        text="For every leaf sequence (<= 2 items quick / 3 thorough: text, bytes, 8-bit run, 4-bit run), content from alphabets spanning the UTF-8 length classes and the Latin-1 boundary, flat or cut into sibling subtrees, each of the 5 views equals the in-order concatenation oracle (or raises exactly when a bit run is misaligned), and any order of repeated requests on the tree and on one shared TreeValue gives the results of a fresh copy and leaves the leaves unchanged.",
-        note=E1 + " Finite content alphabets (encode/format realise symbolic contents). Outside: int() views, longer sequences.", ref="DESIGN.md section 3 C09"),
+        text="For every leaf sequence (<= 2 items quick / 3 with the leaf kinds fixed per condition: text, bytes, 8-bit run, 4-bit run), content from alphabets spanning the UTF-8 length classes and the Latin-1 boundary, flat or cut into sibling subtrees, each view (str, bytes, to_string, to_bytes, value().to_string, int of bit-only trees) equals the in-order concatenation oracle (or raises exactly when a bit run is misaligned), and any order of repeated requests on the tree and on one shared TreeValue gives the results of a fresh copy and leaves the leaves unchanged.",
+        note=E1 + " Finite content alphabets (encode/format realise symbolic contents). Outside: int() of text/bytes trees, longer sequences.", ref="DESIGN.md section 3 C09"),
     "C10": dict(
         technique="bounded symbolic execution of sequences of public tree operations; from-scratch recomputation and object-identity snapshots as oracle",
         text="For 3 initial trees and every sequence of 2 of 16 public operations (quick: reduced operand and follow-up sets) with symbolic operands, after every step every tree object held (including an 'already emitted' copy) has size/hash/equality equal to from-scratch recomputation and consistent parent links; read-only accessors and copy-producing operators leave their inputs identical, object identities included.",
@@ -55,17 +55,17 @@ CLAIMED = {
         note=E1 + " 'Fresh' objects are separate constraint objects with emptied caches. Outside: longer histories, soft constraints.", ref="DESIGN.md section 3 C11"),
     "C12": dict(
         technique="bounded symbolic execution of the real Parser (cache included) under a symbolic history of parse-type requests vs a fresh Parser",
-        text="For 5 grammars (one ambiguous) and every history of <= 2 (thorough 3) requests out of 9 kinds (first tree, full forest, abandoned iteration, unstarted generator, prefix mode, other start symbol, mutation of returned trees at root/leaves) on words from a finite list: the forest then served for a target word equals a fresh Parser's forest, origin_repetitions up to renaming.",
+        text="For 5 grammars (one ambiguous) and every history of <= 2 (thorough 3) requests out of 9 kinds (first tree, full forest, abandoned iteration, unstarted generator, prefix mode first tree / all trees, other start symbol, mutation of returned trees at root/leaves) on words from a finite list (complete words and strict prefixes): the complete-mode forest, the first tree for another start symbol and the prefix-mode first tree and forest then served for a target word equal a fresh Parser's, origin_repetitions up to renaming. API level: what Fandango.parse yields does not depend on a symbolic history of earlier init_population calls with extra constraints.",
         note=E1 + " Outside: hookin_parent requests, interleaving two live generators.", ref="DESIGN.md section 3 C12"),
     "C13": dict(
         technique="bounded symbolic execution of IterativeParser.consume per fragment with the word and every cut position symbolic",
-        text="For 7 grammars, ANY str word up to the bound and EVERY composition into consecutive fragments: the complete parses after the last fragment equal those of consuming the word at once, and can_continue() is false only if the reference prefix-viability oracle says no extension is in the language.",
-        note=E1 + " Outside: regex terminals, bytes/bit inputs, the threaded receive path.", ref="DESIGN.md section 3 C13"),
+        text="For 7 literal-terminal grammars, ANY str word up to the bound and EVERY composition into consecutive fragments: the complete parses after the last fragment equal those of consuming the word at once, and can_continue() is false only if the reference prefix-viability oracle says no extension is in the language. 5 regex-terminal grammars: ALL words over a stated alphabet up to length 3-4 and every fragmentation (cuts inside regex matches).",
+        note=E1 + " Outside: regex terminals on words outside the stated alphabets or whose matches can be split ambiguously under a repetition, bytes/bit inputs, the threaded receive path.", ref="DESIGN.md section 3 C13"),
     "C15": dict(
         engine="E3-gre",
         technique="grammar IR -> z3 regular expressions; language-equality query (all words) between each grammar shape and its printed-and-reread form; CrossHair for literal quoting",
         text="Grammars: for ~180 (thorough ~1600) generated grammar shapes (every postfix operator over terminals, nonterminals, grouped alternatives and sequences, bytes and non-ASCII literals, nested to depth 2/3, in 5 contexts) z3 decides that the grammar printed by repr() and read back denotes the same language for ALL words (no length bound). Seven shapes pair a literal and a regex terminal with the same text (regex subset translated to z3). Constraints: each of the 38 programs of the C07 family is printed with format_as_spec() and read back; those that read back agree with the original on EVERY tree of the C07 bound (CrossHair); three classes that do not read back or change meaning are genuine defects listed as known findings. Literal quoting: Terminal.format_as_spec -> from_symbol round-trips every str/bytes of length <= 2 (3) over a 12-character alphabet with both quotes, backslash, newline, NUL, non-ASCII.",
-        note="Trusted: engine/gre.py (validated per run against Grammar.fuzz/parse), z3 sequence theory, the real spec reader. NOT covered: generators, party annotations, regex constructs outside the translated subset, recursive grammars; constraint programs are a fixed list.", ref="DESIGN.md section 3 C15"),
+        note="" + E1 + " Outside: regex terminals on words outside the stated alphabets, words beyond the bound, grammars outside the family, bit-level inputs.", ref="DESIGN.md section 3 C15"),
     "C16": dict(
         technique="bounded symbolic execution of generation and subtree replacement on specs with generators (symbolic draws, symbolic generator return value, symbolic replaced node)",
         text="For 4 specs (two distinct arguments, same symbol twice, nested generated argument, stub generator): on every path each generator-defined field equals the generator (re-implemented in the harness) applied to the arguments recorded in .sources, its children are read-only; replace() of any node (sources included) keeps these invariants, never replaces read-only nodes, never modifies its input; a stub value that does not fit the rule raises FandangoParseError, a fitting one appears verbatim.",
@@ -76,11 +76,11 @@ CLAIMED = {
         note=E1 + " Outside: interleaving two active runs (the cap is process-wide by design while a run is active), FandangoIO singletons.", ref="DESIGN.md section 3 C18"),
     "C19": dict(
         technique="bounded symbolic execution of the real PacketForecaster along every message history in the depth bound; z3 regular-expression reference for continuations and completeness",
-        text="For 5 protocol specs (option/star/bounded repetition/nesting; alternation with a two-message branch under a star; repeated two-message group; nested repetition of alternatives; one message type sent by both parties) and EVERY message history of depth <= 3 (thorough 5) reachable through the offered options: the offered (sender, recipient, type) set equals the continuation set of the message-level language and 'complete' is reported exactly for full interactions - both decided by z3 on a regular expression derived from the grammar IR.",
-        note=E1 + " Outside: specs sliced to a subset of parties, computed repetitions in protocol grammars, deeper histories.", ref="DESIGN.md section 3 C19"),
+        text="For 5 protocol specs (option/star/bounded repetition/nesting; alternation with a two-message branch under a star; repeated two-message group; nested repetition of alternatives; one message type sent by both parties) and 2 specs sliced to a subset of parties, and EVERY message history of depth <= 3 (thorough 5) reachable through the offered options: the offered (sender, recipient, type) set equals the continuation set of the message-level language and 'complete' is reported exactly for full interactions - both decided by z3 on a regular expression derived from the grammar IR (for sliced specs: from the unsliced IR with a harness-owned slicing).",
+        note=E1 + " Outside: computed repetitions in protocol grammars, deeper histories, generators in protocol specs.", ref="DESIGN.md section 3 C19"),
     "C20": dict(
         technique="bounded symbolic execution of the real receive path (parse_next_remote_packet + FandangoIO buffer) under symbolic remote data, interleaving and arrival schedule; z3 send-gate query on IoEvaluator",
-        text="In part (units, not the threaded loop): for every remote text of <= 2 (3) characters, every position of an interleaved third-party fragment and 0-2 fragments arriving late (time.sleep stub), the returned tree spells exactly the consumed fragments of one sender in order, exactly those leave the buffer, attribution is the forecast's, and data fitting no expected type raises; z3 shows on the formula generated from IoEvaluator.evaluate_individual that nothing is yielded (sent) while a constraint is violated or raises.",
+        text="In part (units, not the threaded loop): for every remote text of <= 2 (3) characters, every position of an interleaved third-party fragment and 0-2 fragments arriving late (time.sleep stub), the returned tree spells exactly the consumed fragments of one sender in order, exactly those leave the buffer, attribution is the forecast's, and data fitting no expected type raises; while the next message is generated, evaluated and repaired (symbolic draws) the recorded history stays byte- and attribution-identical; z3 shows on the formula generated from IoEvaluator.evaluate_individual that nothing is yielded (sent) while a constraint is violated or raises.",
         note=E1 + " NOT covered: the threaded socket loop of _generate_io, real transports, thread interleavings inside add_receive, the accept step's re-evaluation, bytes-level data.", ref="DESIGN.md section 3 C20"),
 }
 
